@@ -32,7 +32,9 @@ func (e *AccessorExpr) Evaluate(engine *Engine, input interface{}, args []*State
 
 	// If it is a slice we need to Evaluate each one.
 	if in.Kind() == reflect.Slice {
-		t := TypeOfSliceElement(input)
+		// TypeOfSliceElement does not give a type for a list of anything. The
+		// accessor is resolved on each element in that case (see below).
+		t := in.Type().Elem()
 		if t.Kind() == reflect.Ptr {
 			t = t.Elem()
 		}
